@@ -163,6 +163,20 @@ func guardsIntact() bool {
 	return true
 }
 
+// sameTok reports whether two tokens are textually identical (used to pass ONE object for two
+// parameters when a case names the same thing twice).
+func sameTok(a, b Tok) bool {
+	if a.IsArr != b.IsArr || a.Atom != b.Atom || len(a.Arr) != len(b.Arr) {
+		return false
+	}
+	for i := range a.Arr {
+		if !sameTok(a.Arr[i], b.Arr[i]) {
+			return false
+		}
+	}
+	return true
+}
+
 func (t Tok) Intss() [][]int {
 	out := make([][]int, len(t.Arr))
 	for i, e := range t.Arr {
